@@ -26,9 +26,9 @@ fn kind_name(f: &Fault) -> &'static str {
 
 /// programs: histories ending in a pruning operation whose last step solves at least one LP
 pub fn programs(tier: Tier) -> Vec<HCase> {
-    // fixed strides through the deterministic enumeration of the C03 space
-    let stride = match tier { Tier::Quick => 3001, Tier::Thorough => 4001 };
-    super::c03::cases_strided(tier, stride)
+    // fixed strides through the deterministic enumeration of the (quick) C03 space
+    let stride = match tier { Tier::Quick => 3001, Tier::Thorough => 251 };
+    super::c03::cases_strided(Tier::Quick, stride)
 }
 
 struct Prepared {
@@ -233,8 +233,8 @@ pub fn run(tier: Tier) -> Report {
     rep.set("distinct_nontrivial", reached);
     rep.set("rule", "programs: every k-th history of the C03 space (ending in infeasible_elimination or a pruned composition); per program the fault-free run fixes the number N of LP calls; plans: no fault, every single call index x {Error, Unbounded, Perturbed(1e-6), Perturbed(1e-3), FarOff(+1e3), FarOff(-1e2)}, every pair of indices (< N+2) x kind pairs when N <= limit, every subset of >= 3 indices x {Error, Unbounded, Perturbed(1e-3), FarOff} when N is small; one evaluation per (program, plan); non-trivial = every fault of the plan was actually injected (the call index was reached); distinct by enumeration");
     rep.set("bound", match tier {
-        Tier::Quick => "about 400 programs; pairs for N <= 8; full subsets for N <= 4",
-        Tier::Thorough => "about 4000 programs; pairs for N <= 14; full subsets for N <= 6",
+        Tier::Quick => "every 3001st history of the C03 quick space (about 300 programs); pairs for N <= 8; full subsets for N <= 4",
+        Tier::Thorough => "every 251st history of the C03 quick space (about 3600 programs); pairs for N <= 14; full subsets for N <= 6",
     });
     rep.assume("oracle per run: no panic; function equals the un-pruned history (thin carve-out); well-formed; every cached witness inside its path polytope and no fat node marked infeasible; structural clause for elimination. A bare Feasible verdict from an injected Unbounded answer is not judged (it carries no witness and can only keep a node)");
     rep
